@@ -1,0 +1,11 @@
+//go:build verif
+
+// Contracts for the deductive verifier in /verif (comment-only file; compiled out
+// unless the build tag `verif` is set, and even then contains no executable code).
+package pointstore
+
+//@ func PointKey
+//@   property C19
+//@   arith bv
+//@   ensures len(result) == 18 && result[0] == 'p' && result[17] == suffix
+//@   ensures forall(k, 0, 16, result[1+k] == id[k])
